@@ -12,7 +12,7 @@ git -C "$R" apply "$patch"
 trap 'git -C "$R" checkout -- . ; git -C "$R" clean -fdq -- crates python 2>/dev/null' EXIT INT TERM
 silent=0
 for id in "$@"; do
-  out=$(VERIF_REPO_DIR="$R" VERIF_SCRATCH=/tmp/seedrun${SEED_REPO:+_alt} bin/check "$id" --tier "$tier" 2>/dev/null); rc=$?
+  out=$(VERIF_REPO_DIR="$R" VERIF_SCRATCH=/tmp/seedrun${SEED_REPO:+_$(basename "$SEED_REPO")} bin/check "$id" --tier "$tier" 2>/dev/null); rc=$?
   echo "$out" | grep -E "^VIOLATION|^  class=|^KNOWN|$id $tier:" | cut -c1-330
   echo "== $id exit=$rc"
   [ $rc -eq 1 ] || silent=$((silent+1))
